@@ -54,6 +54,7 @@ def hunt4_rules(chk, repo):
                       "the connection of a timed-out or cancelled https request to a stalled peer is close()d gracefully: asyncio waits up to 30 s for the peer's close_notify, the socket is in neither _conns nor _acquired, survives session.close() and `limit` no longer bounds the open sockets; ssl_shutdown_timeout=0 (`immediate abort`) is honoured only by connector.close()")
     tls_release_rule(chk, repo, "C18.close.tls")
     hunt5_rules(chk, repo)
+    round7_rules(chk, repo)
     # ---- C18.scope.total (buffered data): a read that takes buffered data without waiting still looks at the deadline ---------------------------------
     sr = repo.cls(STREAMS, "StreamReader")
     nt = 0
@@ -73,6 +74,44 @@ def hunt4_rules(chk, repo):
             chk.violation("C18.scope.total", takes[0].ast, K.short(takes[0].ast, 60), "self._timer.assert_timeout() before self._read_nowait_chunk(...)",
                           f"StreamReader.{mname}() takes buffered data through _read_nowait_chunk() without looking at the request timer (the other read methods go through _read_nowait(), which asserts it): with data flowing steadily `async for line in resp.content` never waits, so ClientTimeout(total=...) is never enforced", path=g.fmt_path(p))
     chk.expect_count("C18.scope.total", nt, 2, "public StreamReader coroutines that call the consumption primitive directly")
+
+
+def round7_rules(chk, repo):
+    """Rule written after seeding round 7 (seed C18-7): a timeout is never answered with a second attempt.
+    _request() sends an idempotent request once more when a pooled connection turns out to be dead.  The classes that branch catches must not
+    have a timeout error among their subclasses (unless an earlier clause of the same try has taken it out): a sock_read timeout that is
+    swallowed puts the request on the wire twice and fails after twice the bound."""
+    CE = "aiohttp/client_exceptions.py"
+    mod = repo.module(CE)
+    bases = {c.name: c.base_names() for c in mod.classes.values()}
+    def ancestors(n, seen=None):
+        seen = seen or set()
+        for b in bases.get(n, []):
+            b = b.split(".")[-1]
+            if b not in seen:
+                seen.add(b)
+                ancestors(b, seen)
+        return seen
+    timeouts = {n for n in bases if "TimeoutError" in ancestors(n) or n.endswith("TimeoutError")}
+    rq = repo.func(CLIENT, "ClientSession._request")
+    n = 0
+    for t in [t for t in ast.walk(rq.node) if isinstance(t, ast.Try)]:
+        taken = set()
+        for h in t.handlers:
+            ty = [x.split(".")[-1] for x in PC.handler_types(h)]
+            retry = any(isinstance(a, ast.Assign) and norm.raw(a.targets[0]) == "retry_persistent_connection" for a in ast.walk(h)) and any(isinstance(x, ast.Continue) for x in ast.walk(h))
+            if retry:
+                n += 1
+                swallowed = sorted(tm for tm in timeouts if (set(ty) & ({tm} | ancestors(tm))) and not (taken & ({tm} | ancestors(tm))))
+                if swallowed:
+                    chk.violation("C18.retry.timeouts", h, f"except ({', '.join(ty)}):", "except (ClientOSError, ServerDisconnectedError):",
+                                  f"the retry of an idempotent request catches {', '.join(swallowed)} (through a base class): a request with ClientTimeout(sock_read=X) whose peer stalls before the response head is sent again on a fresh connection and fails after 2 x X instead of X - a PUT body goes out twice - and nothing tells the caller that a timeout was absorbed")
+                else:
+                    chk.ok("C18.retry.timeouts", h, f"the retry branch catches {', '.join(ty)}: no timeout error among their subclasses reaches it")
+            # clauses that end in a bare `raise` take their classes out for the later ones
+            if h.body and isinstance(h.body[-1], ast.Raise) and not retry:
+                taken |= set(ty)
+    chk.expect_count("C18.retry.timeouts", n, 1, "retry-on-dead-connection handlers in ClientSession._request")
 
 
 def hunt5_rules(chk, repo):
